@@ -26,7 +26,7 @@ from ..monitors import EvalTracer
 
 glom = env.bind()
 import glom.core as gcore  # noqa: E402
-from glom import (T, S, A, Vars, Glommer, Invoke, Coalesce, Match, M, Fold, Sum, Flatten, Merge, Val, Spec, Pipe, Switch, Check, Iter, Assign, Call,  # noqa: E402
+from glom import (T, S, A, Vars, Glommer, Invoke, Ref, Coalesce, Match, M, Fold, Sum, Flatten, Merge, Val, Spec, Pipe, Switch, Check, Iter, Assign, Call,  # noqa: E402
                   GlomError, Path, Or, glom as G)
 from glom.grouping import Group, First, Max, Limit  # noqa: E402
 from glom.reduction import Count  # noqa: E402
@@ -229,6 +229,12 @@ def programs(n_yields):
         # ONE Assign(.., missing=factory) object whose factory yields: each call stores ITS value in ITS target
         dict(name='shared-assign-missing-a', target=lambda: {'v': threading.get_ident()}, spec=lambda: _shared_assign_missing(), fresh=lambda: _mk_assign_missing()),
         dict(name='shared-assign-missing-b', target=lambda: {'v': 'b', 'x': {}}, spec=lambda: _shared_assign_missing(), fresh=lambda: _mk_assign_missing()),
+        # two DIFFERENT specs that both define Ref('node', ..) (one sums a tree, one lists it), each with a yield inside the body
+        dict(name='ref-node-sum', target=lambda: _ref_tree(), spec=lambda: _ref_sum_spec()),
+        dict(name='ref-node-list', target=lambda: _ref_tree(), spec=lambda: _ref_list_spec()),
+        # ONE spec with EMPTY container literals in argument position that its own steps then fill in place
+        dict(name='shared-empty-literal-a', target=lambda: [1, 2], spec=lambda: _shared_empty_literal(), fresh=lambda: _mk_empty_literal()),
+        dict(name='shared-empty-literal-b', target=lambda: [10, 20, 30], spec=lambda: _shared_empty_literal(), fresh=lambda: _mk_empty_literal()),
         # every call raises an exception of ITS OWN class; all these classes share one __name__
         dict(name='same-named-exceptions', target=lambda: {'cls': type('NotFound', (LookupError,) if next(_serial) % 2 else (ValueError,), {})},
              spec=lambda: chain(T) + (lambda t: (_ for _ in ()).throw(t['cls']('nf')),),
@@ -292,6 +298,38 @@ def _shared_invoke():
     if not _SHARED_INVOKE:
         _SHARED_INVOKE.append(Invoke(_kw_collect).constants(sep=', ').star(kwargs=(Y, 'opts')))
     return _SHARED_INVOKE[0]
+
+
+def _ref_tree():
+    return {'v': 1, 'kids': [{'v': 2, 'kids': []}, {'v': 3, 'kids': [{'v': 4, 'kids': []}]}]}
+
+
+_REF_SPECS = {}
+
+
+def _ref_sum_spec():
+    if 'sum' not in _REF_SPECS:
+        _REF_SPECS['sum'] = Ref('node', (Y, {'v': 'v', 'below': ('kids', [Ref('node')], [T['v'] + T['below']], Sum())}, T))
+    return _REF_SPECS['sum']
+
+
+def _ref_list_spec():
+    if 'list' not in _REF_SPECS:
+        _REF_SPECS['list'] = Ref('node', (Y, {'me': 'v', 'sub': ('kids', [Ref('node')])}))
+    return _REF_SPECS['list']
+
+
+_SHARED_EMPTY = []
+
+
+def _mk_empty_literal():
+    return (S(acc=[], seen={}), [(Y, S.acc.append(T))], {'acc': S.acc, 'n': (S.acc, len), 'seen': S.seen})
+
+
+def _shared_empty_literal():
+    if not _SHARED_EMPTY:
+        _SHARED_EMPTY.append(_mk_empty_literal())
+    return _SHARED_EMPTY[0]
 
 
 _SHARED_ASSIGN = []
